@@ -44,3 +44,18 @@ Theorem C02_errors_forwarded :
       gr_ok g = false /\ length (gr_errors g) = length (pr_errors p).
 Proof. exact C02_errors_forwarded_proof. Qed.
 Print Assumptions C02_errors_forwarded.
+
+(* ---- macro application: total on every end-of-file terminated stream, for every budget (on top of C13) ---- *)
+From Theo Require Import SpecMacro ApplyStatements Proofs_Apply.
+
+Theorem C02_extract_macros_ok :
+  forall toks errs out macros, extract_macros toks = Ok (errs, out, macros) -> Forall macro_ok macros.
+Proof. exact C02_extract_macros_ok_proof. Qed.
+Print Assumptions C02_extract_macros_ok.
+
+Theorem C02_apply_total :
+  forall input defs passes, eof_terminated input -> Forall macro_ok defs ->
+    apply_macros input defs passes = Fuel \/
+    exists errs out, apply_macros input defs passes = Ok (errs, out) /\ eof_terminated out.
+Proof. exact C02_apply_total_proof. Qed.
+Print Assumptions C02_apply_total.
